@@ -207,6 +207,66 @@ def run_diff(ctx, nprog, budget):
     return compared, [(gen.render_file(b['prog']), json.dumps(b['doc'])) for b in base]
 
 
+W = 'rule within(limit) {\n  %limit <= 50\n}\n'
+SHADOW = [
+    # (label, program with the abstraction, the same program with the names resolved by hand)
+    ('parameter vs file-level variable of the same name', 'let limit = big\n' + W + 'rule r {\n  within(small)\n}\n', 'rule r {\n  small <= 50\n}\n'),
+    ('parameter vs rule-level variable of the same name around the call', W + 'rule r {\n  let limit = big\n  within(small)\n}\n', 'rule r {\n  small <= 50\n}\n'),
+    ('parameter vs block-level variable of the same name around the call', W + 'rule r {\n  o {\n    let limit = b\n    within(a)\n  }\n}\n', 'rule r {\n  o {\n    a <= 50\n  }\n}\n'),
+    ('nested calls with the same parameter name', 'rule g(p) {\n  %p <= 50\n}\nrule f(p) {\n  g(small)\n  %p >= 100\n}\nrule r {\n  f(big)\n}\n', 'rule r {\n  small <= 50\n  big >= 100\n}\n'),
+    ('nested calls, inner parameter bound to the outer one', 'rule g(q) {\n  %q <= 50\n}\nrule f(p, q) {\n  g(%p)\n  %q >= 100\n}\nrule r {\n  f(small, big)\n}\n', 'rule r {\n  small <= 50\n  big >= 100\n}\n'),
+    ('two parameters, one named like a file-level variable', 'let q = small\nrule f(p, q) {\n  %p <= 50\n  %q >= 100\n}\nrule r {\n  f(small, big)\n}\n', 'rule r {\n  small <= 50\n  big >= 100\n}\n'),
+    ('the parameter is used after the callee defines a variable', 'let x = big\nrule f(x) {\n  let y = %x\n  %y <= 50\n}\nrule r {\n  f(small)\n}\n', 'rule r {\n  small <= 50\n}\n'),
+    ('rule-level variable shadows a file-level one', 'let v = big\nrule r {\n  let v = small\n  %v <= 50\n}\nrule s {\n  %v >= 100\n}\n', 'rule r {\n  small <= 50\n}\nrule s {\n  big >= 100\n}\n'),
+    ('block-level variable shadows a rule-level one, the outer one is back after the block', 'rule r {\n  let v = big\n  o {\n    let v = a\n    %v <= 50\n  }\n  %v >= 100\n}\n', 'rule r {\n  o {\n    a <= 50\n  }\n  big >= 100\n}\n'),
+    ('when-block variable shadows a file-level one', 'let v = big\nrule r {\n  when small exists {\n    let v = small\n    %v <= 50\n  }\n  %v >= 100\n}\n', 'rule r {\n  when small exists {\n    small <= 50\n  }\n  big >= 100\n}\n'),
+    ('a file-level variable is a query on the root also inside a block', 'let v = small\nrule r {\n  o {\n    %v <= 50\n    a <= 50\n  }\n}\n', 'rule r {\n  small <= 50\n  o {\n    a <= 50\n  }\n}\n'),
+    ('a rule-level variable keeps its value inside a filter', 'rule r {\n  let v = small\n  l[ this <= %v ] !empty\n}\n', 'rule r {\n  l[ this <= 10 ] !empty\n}\n'),
+    ('a call is its body written at the call site: other names are looked up from there', 'let v = small\nrule f(p) {\n  %v <= 50\n  %p >= 100\n}\nrule r {\n  let v = big\n  f(big)\n}\n', 'rule r {\n  let v = big\n  %v <= 50\n  big >= 100\n}\n'),
+]
+SHADOW_DOCS = [{'small': s_, 'big': b_, 'o': {'a': a_, 'b': bb_}, 'l': [5, 10, 500]} for (s_, b_, a_, bb_) in
+               [(10, 100, 10, 100), (100, 10, 100, 10), (10, 10, 10, 10), (100, 100, 100, 100), (10, 100, 100, 10), (100, 10, 10, 100)]]
+
+
+def run_shadowing(ctx):
+    """directed: every shadowing relation the statement names (block over rule over file, parameter over everything) written out
+    by hand with its resolved form, on documents that make each side of every comparison pass and fail"""
+    pairs, meta = [], []
+    for lab, a, b in SHADOW:
+        for d in SHADOW_DOCS:
+            if 'l[ this <= 10 ]' in b and d['small'] != 10:
+                continue
+            pairs.append((a, json.dumps(d))); meta.append((lab, 'abs', a, b, d))
+            pairs.append((b, json.dumps(d))); meta.append((lab, 'res', a, b, d))
+    outs, raw = e2e.pair_outcomes(pairs, ctx.wd, 'c15shadow', loader='cli')
+    n = 0
+    for i in range(0, len(pairs), 2):
+        lab, _, a, b, d = meta[i]
+        oa, sa = statuses(outs[i], raw[i])
+        ob, sb = statuses(outs[i + 1], raw[i + 1])
+        n += 1
+        info = {'class': 'abstraction', 'kind': lab, 'rules': a, 'variant': b, 'data': json.dumps(d)}
+        if ob not in ('PASS', 'FAIL', 'SKIP'):
+            raise ToolingError('shadowing scenario does not evaluate: %s %s' % (lab, ob))
+        if oa != ob:
+            ctx.failing('%s: file status %s, with the names resolved by hand %s' % (lab, oa, ob), info, found=True)
+            continue
+        for name in ('r', 's'):
+            if name in sb and sorted(sa.get(name) or []) != sorted(sb[name]):
+                ctx.failing('%s: rule %s has status %s, with the names resolved by hand %s' % (lab, name, sa.get(name), sb[name]), info, found=True)
+                break
+    out, errs = corr.run([{'rules': a, 'data': d} for (a, d) in pairs[::2]], ctx.wd, 'c15shcorr', loader='cli')
+    if errs:
+        raise ToolingError('model evaluation failed: %r' % (errs[:1],))
+    for o, (a, d) in zip(out, pairs[::2]):
+        if o['kind'] == 'compared' and re.search(r'VDis|VModelOOF|NoModelOutput', o['verdict']):
+            ctx.failing('model and implementation disagree on a shadowing scenario (%s)' % o['verdict'],
+                        {'class': 'eval-correspondence', 'verdict': o['verdict'], 'rules': a, 'data': d}, found=False)
+    ctx.coverage['shadowing_scenarios'] = n
+    ctx.coverage['evaluations'] += len(pairs) + len(pairs) // 2
+    return n
+
+
 def run(ctx):
     ctx.build()
     pr = ctx.proofs('C15')
@@ -223,6 +283,7 @@ def run(ctx):
             ctx.failing('model and implementation disagree on a generated program (%s)' % o['verdict'],
                         {'class': 'eval-correspondence', 'verdict': o['verdict'], 'rules': r, 'data': d}, found=False)
     ctx.coverage['correspondence_verdicts'] = stats
+    n += run_shadowing(ctx)
     ctx.coverage['distinct_nontrivial'] = n
     ctx.coverage['rule'] = ('variant = generated program with one abstraction step (rhs literal/query -> %v at block, rule or file level; lhs query -> %v; unused variables at every '
                             'level incl. erroring ones; literal variables inlined; parameterised calls replaced by their body) x its document; counted when both evaluate')
